@@ -4,13 +4,19 @@
    of the parser's conversions (Model/Conv.v), which goes through the standard library's
    DecimalString. JSON escaping of transaction metadata is glue, covered by the correspondence. *)
 From Coq Require Import Ascii.
-From NS Require Import Conv Decimal ConvProofs ConvRoundtrip.
+From NS Require Import Conv Decimal ConvProofs ConvRoundtrip ConvVar.
 
 (* a portion literal n/d, p%, p.q% (one optional space around the slash, any number of digits,
    leading zeros) is converted to exactly the fraction it denotes in base ten *)
 Theorem C13_portion_literal_exact : forall text n d,
   portion_denotes text = Some (n, d) -> portion_literal text = Some (n, d).
 Proof. exact portion_literal_exact. Qed.
+
+(* the same text passed as a portion VARIABLE (the interpreter's own reader) is the same fraction:
+   literal and variable readings of a text cannot disagree *)
+Theorem C13_portion_variable_exact : forall text n d,
+  portion_denotes text = Some (n, d) -> (0 < d)%Z -> parse_portion_text text = Some (n # Z.to_pos d).
+Proof. exact portion_var_exact. Qed.
 
 (* digit strings are read in base ten whatever their length and leading zeros *)
 Theorem C13_digits_base_ten : forall s n, digits_val s = Some n -> parse_int s = Some n.
@@ -39,6 +45,7 @@ Theorem C13_portion_roundtrip : forall q, (0 <= q)%Q -> (q <= 1)%Q ->
 Proof. exact portion_roundtrip. Qed.
 
 Print Assumptions C13_portion_literal_exact.
+Print Assumptions C13_portion_variable_exact.
 Print Assumptions C13_monetary_roundtrip.
 Print Assumptions C13_portion_roundtrip.
 Print Assumptions C13_number_roundtrip.
